@@ -328,6 +328,65 @@ func execOp(s *Sexp) string {
 		return execJRT(s)
 	case "jdeep":
 		return execJDeep(s)
+	case "latereg":
+		// (latereg KIND): a use that fails because a type has no codec leaves nothing behind: once the
+		// codec is registered on that same instance the same call works, and gives what an instance
+		// registered-before-use gives. Oracle only (the world model covers registration before use).
+		return guard(func() string {
+			type holder struct {
+				A int                    `plenc:"1"`
+				M map[string]interface{} `plenc:"2"`
+				L []interface{}          `plenc:"3"`
+			}
+			mk := func() interface{} {
+				switch arg(1) {
+				case "struct":
+					return &holder{A: 3, M: map[string]interface{}{"k": 1}, L: []interface{}{"x", nil}}
+				case "map":
+					m := map[string]interface{}{"k": "v"}
+					return &m
+				case "arr":
+					l := []interface{}{1, "two"}
+					return &l
+				}
+				return nil
+			}
+			if mk() == nil {
+				return "bad-op"
+			}
+			reg := func(p *plenc.Plenc) {
+				p.RegisterCodec(reflect.TypeOf(map[string]interface{}(nil)), plenccodec.JSONMapCodec{})
+				p.RegisterCodec(reflect.TypeOf([]interface{}(nil)), plenccodec.JSONArrayCodec{})
+			}
+			late := &plenc.Plenc{}
+			late.RegisterDefaultCodecs()
+			if _, err := late.Marshal(nil, mk()); err == nil {
+				return "ok first-use-unexpectedly-succeeded"
+			}
+			if _, err := late.CodecForType(reflect.TypeOf(mk()).Elem()); err == nil {
+				return "ok first-use-unexpectedly-succeeded"
+			}
+			reg(late)
+			got, err := late.Marshal(nil, mk())
+			if err != nil {
+				return "ok still-fails-after-registration: " + err.Error()
+			}
+			early := &plenc.Plenc{}
+			early.RegisterDefaultCodecs()
+			reg(early)
+			want, err := early.Marshal(nil, mk())
+			if err != nil {
+				return "err"
+			}
+			if hx(got) != hx(want) {
+				return "ok differs " + hx(got) + " vs " + hx(want)
+			}
+			back := reflect.New(reflect.TypeOf(mk()).Elem())
+			if err := late.Unmarshal(got, back.Interface()); err != nil {
+				return "ok decode-fails-after-registration"
+			}
+			return "ok same"
+		})
 	case "ptrkeys":
 		// (ptrkeys N): maps with POINTER keys (legal, but outside the value model: keys are identities):
 		// N decodes on one instance into fresh variables; every result must keep its own contents and
